@@ -27,3 +27,17 @@ theorem gen_p2wpkh_of_pubkey (sha256 : Bytes → Bytes) (hlen : ∀ b, (sha256 b
   exact gen_p2wpkh_bytes _ (by unfold pubHash160 hash160; exact C10GenPub.rmd_length _ _)
 
 end C12GenPub
+
+namespace C12GenPub
+open Py Model Spec C12Gen C02Gen
+
+/-- `P2shAddress(script=…)` — the base constructor called with a script only (a `Script` object is truthy: the class is checked to
+define neither `__bool__` nor `__len__`): the object stores HASH160 of the script's exact byte encoding, and its locking script is the
+one `Script.to_p2sh_script_pub_key` returns for the same script -/
+theorem gen_address_init_script (sha256 : Bytes → Bytes) (hlen : ∀ b, (sha256 b).length < 2 ^ 61) (T : Tables) (s : List Spec.Tok) :
+    Gen.address_init_script sha256 T.opCodes (s.map toPy) = scriptToHash160 sha256 C20Gen.genTabs T s := by
+  unfold Gen.address_init_script
+  simp only [if_true]
+  rw [gen_address_script_to_hash160 sha256 hlen T s]
+
+end C12GenPub
